@@ -10,7 +10,7 @@ from translate import c08_sites
 MANIFEST = dict(
     technique='Rocq proof (allocator refinement to a finite set, lifecycle NoDup invariants by induction over histories of several maps incl. copy/parse/collapse, nested Entity/Solid/Side world with bundled events, nav-node ID lifecycle, fixup indexes over whole histories) + ast site censuses with semantic normalisation + vm_compute correspondences',
     text='Theorems in Props/C08.v: the IDMan scan terminates and returns a positive unused ID keeping the search_pos invariant; from every invariant state IDMan is observationally equal to a plain finite set that hands out the desired ID if positive and free, else the least free positive ID (search_pos is unobservable); for every history over any number of maps of construction with arbitrary desired IDs, copy() within and across maps, removal, re-adding, destruction, VMF.parse of documents with colliding/missing/non-positive IDs and collapse_one, the existing objects of one kind that belong to one map have pairwise distinct positive IDs, provided IDs are released only by destructors and every copy site passes the destination map down; the same for entities, their brushes and the faces of those as ONE world whose events are the bundles of constructor/copy/remove/destructor calls made for a top-level object and its parts (order and desired IDs of the nested calls are part of the model); nav-node IDs held by existing entities are distinct and positive after every history of key set/delete/copy/remove/re-add/destroy provided remove_ent does not release them and copies register their node ID; replaceNN indexes of one entity are distinct and positive after the constructor on any list and every sequence of set/setdefault/update, del/pop, clear, rebuild by Entity.copy and copy/deepcopy/pickle. The premises (release sites, ID stores, map argument of every constructor/copy call inside copy() methods and collapse_one, every write into Entity._keys and into the fixup index table, node-ID shapes, fixup acceptance test / deferral / start index, hint guard) are regenerated from the source on every run by a fail-closed translator that normalises names, test spellings, branch order, single-use locals, helper functions and loop forms, and are kernel-checked; IDMan, EntityFixup histories, the entity lifecycle, three-map histories of entities/brushes/faces/brush groups/visgroups (per kind and as bundled events), node-ID histories and VMF.parse results are compared with the models on random inputs (exact IDs); histories over all ID kinds including collapse_one are searched on real VMF objects.',
-    note='Trusted: Coq kernel + vm_compute, translate/c08_sites.py, c08_keys.py, c08_norm.py (which call sites matter: copy() methods of the five ID classes and collapse_one; other functions that build objects from a foreign map are not in the census), hand models SM/IdMan.v, SM/IdLife.v, SM/IdFixupHist.v, SM/IdWorld.v, SM/IdNest.v, SM/IdNode.v (tied by differential runs), CPython refcount/gc for __del__ timing. Brush groups and visgroups are independent single-kind models (each class uses the manager of its kind: census obligation); their IDs are never released (no destructor: leak, modelled as such). The real collapse_one is modelled only as a list of copies (which objects it copies and the keyvalue rewriting are searched, not modelled). Node IDs reserved by Instance.fixup_key are never released (leak, not modelled). The deprecated Entity.keys dict (returned by reference) and a table handed to EntityFixup.__setstate__ bypass the censuses (listed as exposures). Maps opened with preserve_ids=True are exempt by definition.',
+    note='Trusted: Coq kernel + vm_compute, translate/c08_sites.py, c08_keys.py, c08_norm.py (which call sites matter: copy() methods of the five ID classes and collapse_one; other functions that build objects from a foreign map are not in the census), hand models SM/IdMan.v, SM/IdLife.v, SM/IdFixupHist.v, SM/IdWorld.v, SM/IdNest.v, SM/IdNode.v (tied by differential runs), CPython refcount/gc for __del__ timing. Brush groups and visgroups are independent single-kind models (each class uses the manager of its kind: census obligation); their IDs are never released (no destructor: leak, modelled as such). collapse_one is an event of the nested model (which brushes and entities it copies, in which order, is computed by the model and compared with the real function; hidden objects, visgroup handling and the keyvalue rewriting are searched, not modelled). Node IDs reserved by Instance.fixup_key are never released (leak, not modelled). The deprecated Entity.keys dict (returned by reference) and a table handed to EntityFixup.__setstate__ bypass the censuses (listed as exposures). Maps opened with preserve_ids=True are exempt by definition.',
 )
 
 IMPORTS = ['SV.SM.IdMan', 'SV.SM.IdManSpec', 'SV.SM.IdLife', 'SV.SM.IdFixupHist', 'SV.SM.IdWorld', 'SV.SM.IdNest', 'SV.SM.IdNode', 'SV.Gen.IdSites_gen', 'SV.Props.C08',
@@ -668,7 +668,7 @@ def gen_world_case(rng: random.Random, n_ev: int):
     nest_ok = True
     for m, v in enumerate(maps):          # the constructor's worldspawn takes an entity ID in every map
         ev['KEnt'].append(f'WCreate {m}%nat (-1)')
-        tev.append(f'TCreateEnt {m}%nat (-1) []')      # top-level objects 0..2 of the nested model
+        tev.append(f'TCreateSpawn {m}%nat')            # top-level objects 0..2 of the nested model
         tr['KEnt'].append(_Tracked(v.spawn, m))
 
         def spy(e, orig=v.face_id.discard):
@@ -802,9 +802,43 @@ def gen_world_case(rng: random.Random, n_ev: int):
             gc.collect(0)
             desc.append(('gforget', t['kind']))
 
+    def track_top_copy(t, c, dest, d, explicit):
+        nt = {'kind': t['kind'], 'obj': c, 'ent': None, 'solids': [], 'home': dest, 'inmap': True}
+        csolids = c.solids if t['kind'] == 'ent' else [c]
+        # construction order: for every solid its sides, then the solid; the entity last
+        for (si, fis), cs in zip(t['solids'], csolids):
+            nf = []
+            for fi, cf in zip(fis, cs.sides):
+                # Side.copy asks for the source's own ID when a map is passed, otherwise for a fresh one
+                nf.append(track_copy('KFace', fi, cf, dest, tr['KFace'][fi].id if explicit else -1))
+            nt['solids'].append((track_copy('KSolid', si, cs, dest, d if t['kind'] == 'solid' else -1), nf))
+        if t['kind'] == 'ent':
+            nt['ent'] = track_copy('KEnt', t['ent'], c, dest, d)
+        return nt
+
+    def collapse_event():
+        # the real collapse_one: map s is used as an instance and collapsed into map dest.  The harness only reads which
+        # objects appeared in the destination's lists; which ones are copied, and in which order, is the model's business.
+        from srctools import instancing
+        from srctools.math import Matrix
+        s, dest = rng.sample(range(3), 2)
+        nb0, ne0 = len(maps[dest].brushes), len(maps[dest].entities)
+        srcs = list(maps[s].brushes) + list(maps[s].entities)
+        inst = instancing.Instance('inst', '', Vec(16, 0, 0), Matrix())
+        instancing.collapse_one(maps[dest], inst, instancing.InstanceFile(maps[s]))
+        news = maps[dest].brushes[nb0:] + maps[dest].entities[ne0:]
+        for so, c in zip(srcs, news):
+            t = next(t for t in tops if t['obj'] is so)
+            tops.append(track_top_copy(t, c, dest, -1, True))
+        desc.append(('collapse', s, dest, len(news), len(srcs)))
+        tev.append(f'TCollapse {s}%nat {dest}%nat')
+
     for _ in range(n_ev):
         if rng.random() < 0.25:
             group_event()
+            continue
+        if rng.random() < 0.10:
+            collapse_event()
             continue
         r = rng.random()
         live = [t for t in tops if t['obj'] is not None]
@@ -846,17 +880,8 @@ def gen_world_case(rng: random.Random, n_ev: int):
             if not explicit:
                 dest = t['home']
             c = t['obj'].copy(des_id=d, vmf_file=maps[dest] if explicit else None)
-            nt = {'kind': t['kind'], 'obj': c, 'ent': None, 'solids': [], 'home': dest, 'inmap': True}
-            csolids = c.solids if t['kind'] == 'ent' else [c]
-            # construction order: for every solid its sides, then the solid; the entity last
-            for (si, fis), cs in zip(t['solids'], csolids):
-                nf = []
-                for fi, cf in zip(fis, cs.sides):
-                    # Side.copy asks for the source's own ID when a map is passed, otherwise for a fresh one
-                    nf.append(track_copy('KFace', fi, cf, dest, tr['KFace'][fi].id if explicit else -1))
-                nt['solids'].append((track_copy('KSolid', si, cs, dest, d if t['kind'] == 'solid' else -1), nf))
+            nt = track_top_copy(t, c, dest, d, explicit)
             if t['kind'] == 'ent':
-                nt['ent'] = track_copy('KEnt', t['ent'], c, dest, d)
                 maps[dest].add_ent(c)
             else:
                 maps[dest].add_brush(c)
@@ -943,7 +968,7 @@ def corr_world(ck: Ck) -> None:
         ck.count('world_histories')
         for d in desc:
             ck.hist('world_events', d[0])
-        if any(d[0] in ('copy', 'gcopy') and d[4] for d in desc):
+        if any(d[0] == 'collapse' or (d[0] in ('copy', 'gcopy') and d[4]) for d in desc):
             ck.seen(('world', tuple(desc)))
         for m, sc in enumerate(scans):
             for kind, what, vals in dup_report(sc):
@@ -993,8 +1018,8 @@ def corr_world(ck: Ck) -> None:
             return
         bad += [lo + i for i in parse_coq_N_list(vals[0])]
     ck.obligation('correspondence:nested', not bad,
-                  f'{len(nested)} histories of bundled events on entities / brush entities / world brushes over three maps, model trun '
-                  f'(parts, order and desired IDs decided by the model) vs the implementation: {len(bad)} disagreements')
+                  f'{len(nested)} histories of bundled events on entities / brush entities / world brushes over three maps incl. the real collapse_one, '
+                  f'model trun (parts, order, desired IDs and the objects collapse_one copies decided by the model) vs the implementation: {len(bad)} disagreements')
     if bad:
         c = min((nested[i] for i in bad), key=lambda c: len(c[0]))
         ck.tie_broken.append('correspondence nested objects (SM/IdNest.v trun vs Entity/Solid/Side constructors, copy(), remove, __del__)')
